@@ -15,6 +15,36 @@ PROBE = 'ZZ77+SUM(ZY1:ZZ2)+TRUE+ABS(1)'
 SETPOOL = [[], [None], [0], [False], [''], [5], [5, None], [None, 0], [5, 0], ['', False, None], [[1, 2]], [2.5]]
 
 
+def may_be_array(n, env):
+    k = n['k']
+    if k in ('arr', 'range'):
+        return True
+    if k == 'cell':
+        key = F.cps(F.plain_key(F.S(n['s'])))
+        return any(v['t'] == 'arr' for s in env['cellsets'] if s['key'] == key for v in s['vals'])
+    if k == 'var':
+        return env['vars'].get(n['name'], {'t': ''})['t'] == 'arr' or \
+            any(v['t'] == 'arr' for s in env['varsets'] if s['key'] == n['name'] for v in s['vals'])
+    if k == 'call':
+        return n['f'] not in ('SUM', 'COUNT') and (
+            env['funcs'].get(n['f'], {}).get('v', {'t': ''})['t'] == 'arr' or env['funcs'].get(n['f'], {}).get('mode') == 'arg' or
+            any(v['t'] == 'arr' for s in env['fnsets'] if s['key'] == n['f'] for v in s['vals']))
+    if k in ('paren', 'neg'):
+        return may_be_array(n['e'], env)
+    if k == 'bin':
+        return may_be_array(n['l'], env) or may_be_array(n['r'], env)
+    return False
+
+
+def array_meets_array(n, env):
+    """some operator may combine two arrays: that arithmetic (and the recorded C06 finding about nested one-element
+    arrays) is not this property's subject, the value of such a formula is not judged here"""
+    if n['k'] == 'bin' and may_be_array(n['l'], env) and may_be_array(n['r'], env):
+        return True
+    return any(array_meets_array(x, env) for f in ('l', 'r', 'e') if isinstance(n.get(f), dict) for x in [n[f]]) or \
+        any(array_meets_array(x, env) for f in ('args', 'items') for x in n.get(f, ()))
+
+
 def observe(lib, cases):
     obs = []
     for c in cases:
@@ -32,7 +62,7 @@ def observe(lib, cases):
             h.hooks = {k: nested for k in ('cell:post', 'range:post', 'var:post', 'fn:post')}
         o = h.parse(text)
         o.update({'id': len(obs) + 1, 'ast': c['ast'], 'env': c['env'], 'formula': text, 'nest': bool(c.get('nest')),
-                  'checks': ['value', 'events', 'calls']})
+                  'checks': ['events', 'calls'] if array_meets_array(c['ast'], c['env']) else ['value', 'events', 'calls']})
         obs.append(o)
     return obs
 
@@ -130,7 +160,7 @@ def main(tier, replay=None):
         c = json.load(open(replay))['case']
         obs = observe(lib, [{'ast': c['ast'], 'env': c['env'], 'nest': c.get('nest')}])
         v = core.validate_obs(run, 'Trace_Eval', obs, 'replay', consts)
-        core.tally(run, obs, v, 'c10')
+        core.tally(run, obs, v, 'c10', key=lambda o: o['formula'] + json.dumps(o['env'], sort_keys=True))
         return run.finish()
     quick = tier == 'quick'
     cf = os.path.join(core.scratch(), 'c10_cases.ndjson')
